@@ -4,8 +4,9 @@ package main
 
 import (
 	"fmt"
-	"regexp"
 	"go/types"
+	"math/big"
+	"regexp"
 	"strings"
 
 	"golang.org/x/tools/go/ssa"
@@ -128,6 +129,36 @@ func (e *Exec) zzCall(fn *ssa.Function, args []Value) Value {
 		}
 		e.nondet = append(e.nondet, NondetRec{Kind: "param", Sym: nm, Val: fmt.Sprint(v)})
 		return cbv(uint64(v), 64)
+	case "ParamStr":
+		nm, _ := concStr(args[0])
+		def, _ := concStr(args[1])
+		v := def
+		if s, ok := e.cfg.StrParams[nm]; ok {
+			v = s
+		}
+		e.nondet = append(e.nondet, NondetRec{Kind: "paramstr", Sym: nm, Val: v})
+		return cstr(v)
+	case "FmtBigArgs":
+		// the *big.Int arguments of the formatting call that produced this string
+		sv := args[0].(*StrV)
+		var out []Value
+		for _, a := range sv.Args {
+			if iv, ok := a.(*IfaceV); ok && iv.T != nil {
+				if p, ok := iv.V.(*PtrV); ok && p.O != nil {
+					if _, isBig := e.force(e.rawLoad(p)).(*BigV); isBig {
+						out = append(out, p)
+					}
+				}
+			}
+		}
+		if sv.C != nil {
+			for _, m := range regexp.MustCompile(`-?[0-9]+`).FindAllString(*sv.C, -1) {
+				n, _ := new(big.Int).SetString(m, 10)
+				out = append(out, e.newBig(cbig(n)))
+			}
+		}
+		arr := &ArrayV{E: out}
+		return &SliceV{O: e.newObj(arr, "fmtargs"), Len: cbv(uint64(len(out)), 64), Cap: len(out)}
 	case "Matches":
 		sv := args[0].(*StrV)
 		pat, ok := concStr(args[1])
@@ -205,6 +236,13 @@ func (e *Exec) branchAssume(c *BoolV) bool {
 		if !d {
 			return false
 		}
+		e.assumeBranch(c.T)
+		return true
+	}
+	if e.cfg.LazyFeas {
+		e.lazyUnchecked = true
+		e.script = append(e.script, true)
+		e.pos++
 		e.assumeBranch(c.T)
 		return true
 	}
